@@ -92,6 +92,13 @@ func TestVerifC19(t *testing.T) {
 		if ti%2 == 0 {
 			add("longline.txt", append(append([]byte(strings.Repeat("x", 70000)+"\n"), mit...), '\n'))
 		}
+		if ti%2 == 0 {
+			// the whole file is ONE line of more than 64 KiB with no trailing newline (a minified bundle
+			// with its licence on that line), and the same with the newline
+			one := append([]byte(strings.Repeat("x ", 36000)), bytes.ReplaceAll(bytes.TrimSpace(mit), []byte("\n"), []byte(" "))...)
+			add("oneline.min.js", one)
+			add("oneline_nl.min.js", append(append([]byte(nil), one...), '\n'))
+		}
 		if ti%3 == 1 {
 			add("two.txt", append(append(append([]byte(nil), mit...), []byte("\n\nunrelated words between the two\n\n")...), bsd...))
 		}
@@ -113,7 +120,7 @@ func TestVerifC19(t *testing.T) {
 					var paths []string
 					if target == "files" {
 						for p := range contents {
-							if !strings.Contains(p, "longline") || tasks == 1 {
+							if !(strings.Contains(p, "longline") || strings.Contains(p, "oneline")) || tasks == 1 {
 								paths = append(paths, p)
 							}
 						}
